@@ -27,7 +27,7 @@ COMPONENTS = {
     'stub': ['user objective', 'PRNG seam (reports the element random.choice picked)', 'joblib', 'time.time', 'uuid1'],
 }
 PROBES_EXPECTED = ['eq_calls', 'identical', 'all_differ', 'share_some_coordinates', 'share_last_coordinate_only_differ_elsewhere',
-                   'generate_calls', 'scripted_generate', 'rejected_duplicates', 'removals_checked', 'identical_vectors_in_pool', 'derived_pairs', 'dedup_checked']
+                   'generate_calls', 'mixed_design_classes', 'scripted_generate', 'rejected_duplicates', 'removals_checked', 'identical_vectors_in_pool', 'derived_pairs', 'dedup_checked']
 
 
 def hooks(ctx, w, D):
@@ -39,6 +39,8 @@ def hooks(ctx, w, D):
 
     def eq(orig, self, other):
         r = orig(self, other)
+        if r is NotImplemented:
+            return r        # Python goes on to the reflected method / identity: the caller's `==` is judged, not this value
         if not hasattr(other, 'vector') or len(self.vector) != len(other.vector) or len(self.vector) == 0:
             return r
         ctx.check()
@@ -82,6 +84,13 @@ def hooks(ctx, w, D):
                 return
             a = src.__class__(list(src.vector))
             b = src.__class__(list(src.vector))
+            mixed = D.dec('work', ('de', key, t, 4), 3) == 1
+            if mixed:
+                # the same point as two design classes (a design read back from a store is a plain Individual, the run's
+                # own designs are IndividualNSGAII / IndividualSwarm / ...): equality is about coordinates
+                from artap.individual import Individual
+                a = Individual(list(src.vector))
+                ctx.probe('mixed_design_classes')
             pos = (0, n // 2, n - 1)[D.dec('work', ('de', key, t, 1), 3)]
             kind = D.dec('work', ('de', key, t, 2), 5)
             x = float(b.vector[pos])
@@ -93,7 +102,12 @@ def hooks(ctx, w, D):
             exp = d < 1e-10
             ctx.probe('derived_pairs')
             for p_, q_ in ((a, b), (b, a)):
-                got = bool(eq_(p_, q_))
+                got = bool(p_ == q_) if mixed else bool(eq_(p_, q_))
+                if mixed and kind == 0 and len({p_, q_}) != 1 and not ctx.violations:      # identical vectors only
+                    ctx.violation('hash_differs', 'Individual.__hash__', 'a set keeps both %r (%s) and %r (%s): set-based '
+                                  'de-duplication does not see one design' % (list(p_.vector), type(p_).__name__,
+                                                                              list(q_.vector), type(q_).__name__))
+                    return
                 if got != exp:
                     ctx.violation('eq_ne_definition', 'Individual.__eq__', '%r == %r evaluated to %r; they differ by %r in coordinate %d '
                                   '(pair derived from a run design)' % (list(p_.vector), list(q_.vector), got, d, pos))
